@@ -87,7 +87,16 @@ def run(ctx: Ctx) -> None:
         for a in fn.args.args + fn.args.kwonlyargs:
             ctx.ob("R20.1", f"simple:{ep}|parameter {a.arg} reaches the parser", a.arg in live,
                    msg=f"parameter `{a.arg}` of {ep} never influences the CxxParser construction: callers who pass it get the default behaviour", node=ctor[0], mod=sm)
+    # the encoding must reach the parser's own `encoding` parameter (it is what the file is opened with)
     init = pm.fn("__init__")
+    iparams = [a.arg for a in init.args.args[1:]]
+    pfc = [c for c in walk_local(sm.func("parse_file")) if isinstance(c, ast.Call) and isinstance(c.func, ast.Name) and c.func.id == "CxxParser"][0]
+    eidx = iparams.index("encoding") if "encoding" in iparams else None
+    earg = next((k.value for k in pfc.keywords if k.arg == "encoding"), None)
+    if earg is None and eidx is not None and eidx < len(pfc.args):
+        earg = pfc.args[eidx]
+    ctx.ob("R20.1", "simple:parse_file|encoding handed to CxxParser(encoding=)", isinstance(earg, ast.Name) and earg.id == "encoding",
+           msg="parse_file does not pass its encoding on to CxxParser: the file is opened with the default encoding whatever the caller asked for", node=pfc, mod=sm)
     icfg = pm.cfg("__init__")
     opens = [c for c in walk_local(init) if isinstance(c, ast.Call) and isinstance(c.func, ast.Name) and c.func.id == "open"]
     ok = len(opens) == 1 and any(k.arg == "encoding" and isinstance(k.value, ast.Name) and k.value.id == "encoding" for k in opens[0].keywords) and opens[0].args and isinstance(opens[0].args[0], ast.Name) and opens[0].args[0].id == "filename"
